@@ -9,7 +9,7 @@ ID = "C17"
 LEVEL = "exploration"
 RULE = (
     "seeded @async_generator() bodies of up to 12 operations, each either an await (a batch item, a child task, a "
-    "constant future, a list/tuple/dict of 0-3 of them - empty containers included - or a bare None) or a Value (also instances of a Value subclass); bodies with awaits after the last Value, with no "
+    "constant future, a list/tuple/dict of 0-3 of them - empty containers included - or a bare None) or a Value (also instances of a Value subclass; one in five carrying a FUTURE - a constant future or a not yet started task - as its payload, which must arrive as that very object, uncomputed); bodies with awaits after the last Value, with no "
     "Values, empty bodies, and bodies that re-yield the Values of a nested async generator. For each body: "
     "list_of_generator == the Values in program order; take_first(gen, n) for every n in 0..len+2 == the first n and "
     "the body's own operation counter shows nothing beyond the n-th Value was executed; two successive take_first "
@@ -30,7 +30,8 @@ def make_body(rnd, allow_nested=True):
         r = rnd.random()
         if r < 0.45:
             v += 1  # the first Value is 0: falsy values must be delivered like any other
-            ops.append(["value", v, rnd.random() < 0.3])
+            # one Value in five carries a FUTURE as its payload (generators handing out work for the caller to batch)
+            ops.append(["value", v, rnd.random() < 0.3, rnd.choice([None, None, None, None, "const", "task"])])
         elif r < 0.9 or not allow_nested:
             shape = rnd.choice(["one", "one", "list", "tuple", "list", "tuple", "dict", "none"])
             k = 1 if shape == "one" else (0 if shape == "none" else rnd.choice([0, 1, 2, 3]))
@@ -52,7 +53,7 @@ def values_of(ops):
     out = []
     for op in ops:
         if op[0] == "value":
-            out.append(op[1])
+            out.append(("fut", op[1]) if len(op) > 3 and op[3] else op[1])
         elif op[0] == "nested":
             out.extend(values_of(op[1]))
     return out
@@ -80,6 +81,26 @@ class Ctx(object):
         self.executed = 0
         self.bad_resume = None
         self.ctr = itertools.count()
+        self.payloads = {}
+
+    def norm(self, out):
+        """Payload futures are created inside the body: name them by the Value they belong to (by identity)."""
+        if out[0] != "val" or not isinstance(out[1], list):
+            return out
+        lst = []
+        for x in out[1]:
+            try:
+                ent = self.payloads.get(id(x))
+            except Exception:
+                ent = None
+            lst.append(("fut", ent[0]) if ent is not None and ent[1] is x else x)
+        return ("val", lst)
+
+    def payload_computed(self):
+        for v, f, kind in self.payloads.values():
+            if kind == "task" and f.is_computed():
+                return v
+        return None
 
 
 def build(ctx):
@@ -104,7 +125,11 @@ def build(ctx):
         """user code may subclass Value to carry extra data"""
 
     def mk(op):
-        return (Row if len(op) > 2 and op[2] else Value)(op[1])
+        payload = op[1]
+        if len(op) > 3 and op[3]:
+            payload = fut(op[3])
+            ctx.payloads[id(payload)] = (op[1], payload, op[3])
+        return (Row if len(op) > 2 and op[2] else Value)(payload)
 
     @async_generator()
     def inner_gen(ops):
@@ -186,16 +211,23 @@ def check_body(ops, res, c):
 
     # list_of_generator
     ctx, gen = fresh()
-    out = outcome(lambda: list_of_generator(gen(ops)))
+    out = ctx.norm(outcome(lambda: list_of_generator(gen(ops))))
     res["evaluations"] += 1
+    if ctx.payloads:
+        c["runs_with_future_payloads"] = c.get("runs_with_future_payloads", 0) + 1
+    if out == ("val", vals) and ctx.payload_computed() is not None:
+        viol.append(("payload-future-computed-behind-the-consumers-back", {"value": ctx.payload_computed(), "by": "list_of_generator"}))
     if out != ("val", vals):
         viol.append(("list_of_generator", {"expected": vals, "observed": repr(out)[:200], "END_marker_in_result": has_end(out[1]) if out[0] == "val" else False}))
     # take_first for every n
     for n in range(0, len(vals) + 3):
         ctx, gen = fresh()
         g = gen(ops)
-        out = outcome(lambda: take_first(g, n))
+        out = ctx.norm(outcome(lambda: take_first(g, n)))
         res["evaluations"] += 1
+        if out == ("val", vals[:n]) and ctx.payload_computed() is not None:
+            viol.append(("payload-future-computed-behind-the-consumers-back", {"value": ctx.payload_computed(), "by": "take_first", "n": n}))
+            continue
         c["take_first_calls"] = c.get("take_first_calls", 0) + 1
         if n == 0:
             c["take_first_n0"] = c.get("take_first_n0", 0) + 1
@@ -211,7 +243,7 @@ def check_body(ops, res, c):
         # repeated take_first continues where the previous one stopped
         if n <= len(vals):
             m = min(2, len(vals) - n + 1)
-            out2 = outcome(lambda: take_first(g, m))
+            out2 = ctx.norm(outcome(lambda: take_first(g, m)))
             c["repeated_take_first"] = c.get("repeated_take_first", 0) + 1
             want2 = vals[n : n + m] if m > 0 else []
             if out2 != ("val", want2):
@@ -318,7 +350,7 @@ def run_unit(unit, progress):
 
 def reach(c, tier):
     out = []
-    for k in ("bodies_with_awaits_after_last_value", "bodies_without_values", "bodies_with_nested_generator", "take_first_n0", "take_first_n_beyond_len", "repeated_take_first", "guard_checks", "exhaustion_checks"):
+    for k in ("bodies_with_awaits_after_last_value", "bodies_without_values", "bodies_with_nested_generator", "take_first_n0", "take_first_n_beyond_len", "repeated_take_first", "guard_checks", "exhaustion_checks", "runs_with_future_payloads"):
         if not c.get(k):
             out.append("%s is zero" % k)
     return out
